@@ -13,10 +13,12 @@ def _scan_directory(path, eapi):
     for filename in listdir_files(path):
         match = eapi.options.update_regex.match(filename)
         if match is not None:
-            files.append(filename)
+            # quarter files (1Q-2020) apply by year, then quarter: 4Q-2019
+            # comes before 1Q-2020.  Anything else is ordered by name.
+            files.append((match.groups()[::-1], filename))
         else:
             logger.error(f"incorrectly named update file: {filename!r}")
-    return sorted(files)
+    return [filename for _key, filename in sorted(files)]
 
 
 def read_updates(path, eapi):
